@@ -16,7 +16,9 @@ Scenarios == {"kill_quiet", "kill_busy", "kill_at_once", "store_is_file", "store
 Lifetimes == {"long", "short"}           \* 60 s / 2 s of real time
 KeyCounts == {1, 12}
 
-Cases == {[scenario |-> s, lifetime |-> t, keys |-> n] : s \in Scenarios, t \in Lifetimes, n \in KeyCounts}
+(* keyshape "long": two request URIs of 66 kB that differ in their last byte only (beyond what badger accepts as a key) *)
+Cases == {[scenario |-> s, lifetime |-> t, keys |-> n, keyshape |-> "short"] : s \in Scenarios, t \in Lifetimes, n \in KeyCounts}
+         \cup {[scenario |-> "kill_quiet", lifetime |-> "long", keys |-> 2, keyshape |-> "long"]}
 Relevant(c) == (c.scenario \in {"store_is_file", "store_locked"} => c.lifetime = "long" /\ c.keys = 1)
                /\ (c.scenario = "graceful" => c.keys = 1)
 
@@ -30,13 +32,15 @@ EmitNext == FALSE /\ l' = l
 
 (* observation: started; waited (seconds between the first fetch and the probes after the restart, rounded down);
    probes: per key delivered before the stop: [status, label, same (body and headers as delivered before), fresh
-   (a new version produced for this key), age, contacts, delivered (it had been delivered to the client before)] *)
+   (a new version produced for this key), age, contacts, firstOk (the delivery before the stop was a version produced for
+   this key)] *)
 Obs == ndJsonDeserialize(IOEnv.OBS)
 
 TTL(c) == IF c.lifetime = "long" THEN 60 ELSE 2
 
 ProbeOk(c, o, p) ==
   /\ p.status = 200
+  /\ p.firstOk                                            \* what was delivered before the stop had been obtained for this very key
   /\ (p.label = "hit") =>
         /\ p.same /\ p.contacts = 0
         /\ p.age <= TTL(c)                                 \* never served after its original expiry
